@@ -21,6 +21,9 @@ def filter_calls(calls, results, keep, max_revert_frac=0.25):
     """drop reverted calls (they leave no trace in the state, so the other results stay valid) until at most
     max_revert_frac of the kept calls revert; keep at most `keep` calls (a prefix, so state stays consistent)."""
     idx = list(range(len(calls)))
+    if calls and getattr(calls[0], "deploy", False):
+        if results[0][0] != "ok":          # the constructor reverts: there is no contract to call
+            return [calls[0]], [results[0]], [0]
     ok = [i for i in idx if results[i][0] == "ok"]
     rv = [i for i in idx if results[i][0] != "ok"]
     allow = max(1, int(max_revert_frac * max(len(ok), 1)))
